@@ -19,9 +19,9 @@ func init() {
 				"C16.writethrough (BadgerStore.SetEvent/SetBlock/SetFrame/SetRound/SetPeerSet/Reset: every success return is reached only in maintenance mode or after the db writer succeeded — no other condition may skip the write; the in-memory write precedes the db write), " +
 				"C16.keys (dbSetX and dbGetX build their key with the same key function; every key function is used by a writer and a reader; integer components are zero-padded to >= 9 digits so that key order is numeric order), " +
 				"C16.topo (the topological listing has no gaps: InsertEvent consumes a topological index only after Store.SetEvent stored the event under it; dbSetEvents writes the key of exactly that index; Bootstrap reads consecutive keys), " +
-				"C16.codec (dbSetX marshals with T.Marshal[DB] and dbGetX unmarshals with the matching T.Unmarshal[DB] of the same type), C16.sibling (thorough: the mobile store equals badger_store.go modulo the import path). " +
+				"C16.fields (every field of a persisted type is serialised by its codec — exported, untagged — or is a listed cache that is recomputed; on the pinned tree RoundInfo.decided / queued are neither: known finding F-C16-2), C16.codec (dbSetX marshals with T.Marshal[DB] and dbGetX unmarshals with the matching T.Unmarshal[DB] of the same type), C16.sibling (thorough: the mobile store equals badger_store.go modulo the import path). " +
 				"NOT decided: behaviour after eviction and reopen as a value-level map model; durability; the five dropped store errors reported by errcheck in hashgraph (read one by one: none loses persisted content on this property's paths)."},
-		Rules:    []ruleFunc{c16readthrough, c16writethrough, c16keys, c16codec, func(p *Prog, r *Report) { topoRule(p, r, "C16.topo") }},
+		Rules:    []ruleFunc{c16readthrough, c16writethrough, c16keys, c16codec, func(p *Prog, r *Report) { topoRule(p, r, "C16.topo") }, c16fields},
 		Thorough: []ruleFunc{siblingRule("C16.sibling")},
 	})
 }
@@ -503,4 +503,43 @@ func topoRule(p *Prog, r *Report, rule string) {
 		}
 	}
 	r.Check(len(bad) == 0, rule, "Hashgraph.topologicalIndex:writers", "-", "", "written by InsertEvent and Reset only", "other writers: "+strings.Join(bad, ", "))
+}
+
+
+// C16.fields: what is written decodes to the identical value only if every field of the persisted
+// type goes through the codec. Unexported fields are dropped by encoding/json and ugorji codec;
+// they must be caches recomputed on demand (table below, one reason each).
+func c16fields(p *Prog, r *Report) {
+	const rule = "C16.fields"
+	r.Rule(rule, 6, "every field of a persisted type is serialised or is a listed derived cache")
+	derived := map[string]map[string]string{
+		"Block":     {"hash": "lazy cache of Hash()", "hex": "lazy cache of Hex()", "peerSet": "rebuilt from PeersHash consumers; only set by NewBlock"},
+		"Peer":      {"id": "lazy cache of ID()"},
+		"PeerSet":   {"ByPubKey": "rebuilt by initMaps in Unmarshal", "ByID": "rebuilt by initMaps in Unmarshal", "hash": "lazy cache", "hex": "lazy cache", "superMajority": "lazy cache", "trustCount": "lazy cache"},
+		"Frame":     {},
+		"Root":      {},
+		"RoundInfo": {},
+		"roundEvent": {},
+		"FrameEvent": {},
+		"BlockBody": {},
+	}
+	for _, t := range [][2]string{{HG, "Block"}, {HG, "BlockBody"}, {HG, "Frame"}, {HG, "FrameEvent"}, {HG, "Root"}, {HG, "RoundInfo"}, {HG, "roundEvent"}, {PEER, "Peer"}, {PEER, "PeerSet"}} {
+		n := p.Type(t[0], t[1])
+		if n == nil {
+			r.Anchor(rule, t[1])
+			continue
+		}
+		st := n.Underlying().(*types.Struct)
+		for i := 0; i < st.NumFields(); i++ {
+			f := st.Field(i)
+			tag := st.Tag(i)
+			hidden := !f.Exported() || strings.Contains(tag, `json:"-"`)
+			if !hidden {
+				continue
+			}
+			why, ok := derived[t[1]][f.Name()]
+			r.Check(ok, rule, t[1]+"."+f.Name()+":serialised-or-derived", p.pos(f.Pos()), "", "not serialised, recomputed: "+why,
+				"field "+t[1]+"."+f.Name()+" is part of a persisted value but is dropped by the codec (unexported / hidden) and is not a recomputed cache: a "+t[1]+" read back from the database differs from the one written")
+		}
+	}
 }
